@@ -185,6 +185,15 @@ def _check(ctx: Ctx, only=None) -> None:
             # int() wrapper tolerated
             if isinstance(t, ast.Call) and isinstance(t.func, ast.Name) and t.func.id == "int" and t.args:
                 got = nz.norm(t.args[0])
+            if isinstance(t, ast.Name) and t.id not in (req, acc):
+                # a named temporary: its one definition, when nothing it reads is assigned between the definition and the append
+                defs = [a for a in walk_local(fi.node) if isinstance(a, ast.Assign) and len(a.targets) == 1 and isinstance(a.targets[0], ast.Name) and a.targets[0].id == t.id]
+                if len(defs) == 1 and defs[0].lineno < c.lineno:
+                    reads = {x.id for x in ast.walk(defs[0].value) if isinstance(x, ast.Name)}
+                    between = [x for x in walk_local(fi.node) if isinstance(x, ast.Name) and isinstance(x.ctx, ast.Store) and x.id in reads
+                               and defs[0].lineno < x.lineno <= c.lineno]
+                    if not between:
+                        got = nz.norm(defs[0].value)
             ctx.check(got == want, "PAD", f"{q}: appended wait = requested - measured", function=q,
                       construct="appended wait is not requested length minus measured length",
                       message=f"time normalises to `{got.canon() if got else None}`, expected `{want.canon()}`", file=fi.file, node=c)
